@@ -3,6 +3,7 @@ package node
 import (
 	"fmt"
 
+	"github.com/freeconf/yang/fc"
 	"github.com/freeconf/yang/meta"
 	"github.com/freeconf/yang/val"
 	"github.com/freeconf/yang/xpath"
@@ -97,7 +98,12 @@ func (xp xpathImpl) resolveOperator(oper *xpath.Operator, ident string, s *Selec
 	case "!=":
 		return !val.Equal(a, b), nil
 	default:
-		c := a.(val.Comparable).Compare(b.(val.Comparable))
+		ca, aok := a.(val.Comparable)
+		cb, bok := b.(val.Comparable)
+		if !aok || !bok {
+			return false, fmt.Errorf("%w. '%s' cannot be compared with %s", fc.BadRequestError, ident, oper.Oper)
+		}
+		c := ca.Compare(cb)
 		switch oper.Oper {
 		case "<":
 			return c < 0, nil
